@@ -11,7 +11,7 @@ from harness.vlib import coq_str
 
 THEOREMS = ["C20_refs_closed", "C20_refs_closed_single", "C20_total", "C20_cyclic_diverges", "C20_cyclic_unranked",
             "C20_wf", "C20_wf_single", "C20_accumulate_refuted",
-            "C20_K9_prefix", "C20_K9_dialect_defaults", "C20_K9_builder", "C20_K9_ref_names_key"]
+            "C20_K9_prefix", "C20_K9_dialect_defaults", "C20_K9_builder", "C20_K9_ref_names_key", "C20_K9_passed_context"]
 
 PREFIXES = [None, None, "#/$defs", "#/defs/", "#/x//", "", "/", "///", "#/components/schemas/", "http://e.x/s#/d", "#", "a/b/", "x y/"]
 
@@ -83,14 +83,18 @@ def k9_cases(ctx: vlib.Ctx, n: int):
     A = mod.A
     cases, descr = [], []
     combos = []
-    # a fixed grid first (every dialect x all_refs x a few prefixes x with_definitions), then random ones incl. passed contexts
-    for D in (None, "DRAFT_2020_12", "OPEN_API_3_1"):
-        for ar in (None, True, False):
-            for p in (None, "#/x//", "", "/"):
-                for wd in (True, False):
-                    combos.append(("single", None, wd, ar, D, p))
-                if D is not None:
-                    combos.append(("builder", None, False, ar, D, p))
+    # the full argument grid first: passed context (absent, or each of dialect / all_refs / ref_prefix set or unset)
+    # x dialect x all_refs x ref_prefix arguments x with_definitions; then random ones with more prefix spellings
+    pctxs = [None] + [(cD, car, cq) for cD in ("DRAFT_2020_12", "OPEN_API_3_1") for car in (None, True, False)
+                      for cq in (None, "#/q", "#/q/")]
+    for cx in pctxs:
+        for D in (None, "DRAFT_2020_12", "OPEN_API_3_1"):
+            for ar in (None, True, False):
+                for p in ((None, "#/x//", "", "/") if cx is None else (None, "#/x//")):
+                    for wd in ((True, False) if (cx is None or p is None) else (True,)):
+                        combos.append(("single", cx, wd, ar, D, p))
+                    if D is not None and cx is None:
+                        combos.append(("builder", None, False, ar, D, p))
     while len(combos) < n:
         kind = r.choice(["single", "single", "builder", "ctx"])
         D = r.choice([None, "DRAFT_2020_12", "OPEN_API_3_1"])
@@ -103,7 +107,7 @@ def k9_cases(ctx: vlib.Ctx, n: int):
         elif kind == "ctx":
             cD = r.choice(["DRAFT_2020_12", "OPEN_API_3_1"])
             car = r.choice([None, True, False])
-            cq = r.choice([None, "#/q", "", "#/q/"])     # a passed context is used as is (no stripping)
+            cq = r.choice([None, "#/q", "", "#/q/", "#/components/responses", "x//"])     # used as is (no stripping)
             combos.append(("single", (cD, car, cq), wd, ar, D, p))
         else:
             combos.append(("single", None, wd, ar, D, p))
@@ -156,8 +160,33 @@ def m_scalar(r):
     ])
 
 
-def m_type(r, depth, avail, allow_any=True) -> MT:
+M_PRELUDE = [
+    "import collections",
+    "class N0(NamedTuple):\n    pass",
+    "class N1(NamedTuple):\n    a: int\n    b: str = 'x'",
+    "class N2(NamedTuple):\n    p: Optional[int] = None\n    q: Any = 7",
+    "N3 = collections.namedtuple('N3', [])",
+    "N4 = collections.namedtuple('N4', ['u', 'v'], defaults=[1])",
+]
+M_NAMED = {
+    "N0": ('[]', '[]', '[]'),
+    "N1": ('["a"; "b"]', '[TInt; TStr]', '[None; Some (JStr "x")]'),
+    "N2": ('["p"; "q"]', '[TUnion [TInt; TNone]; TAny]', '[Some JNull; Some (JInt 7)]'),
+    "N3": ('[]', '[]', '[]'),
+    "N4": ('["u"; "v"]', '[TAny; TAny]', '[None; Some (JInt 1)]'),
+}
+
+
+def m_named(r, asd) -> MT:
+    n = r.choice(["N0", "N0", "N1", "N2", "N3", "N4"])
+    names, ts, ds = M_NAMED[n]
+    return MT(n, f"TNamed {'true' if asd else 'false'} {names} {ts} {ds}")
+
+
+def m_type(r, depth, avail, allow_any=True, asd=False) -> MT:
     x = r.random()
+    if x < 0.12:
+        return m_named(r, asd)
     if depth <= 0 or x < 0.3:
         if avail and r.random() < 0.45:
             c = r.choice(avail)
@@ -168,7 +197,7 @@ def m_type(r, depth, avail, allow_any=True) -> MT:
                 return t
     k = r.choice(["List", "Set", "Dict", "Tuple", "Union", "Optional", "List", "Optional", "Tuple0"])
     if k == "List":
-        a = m_type(r, depth - 1, avail)
+        a = m_type(r, depth - 1, avail, asd=asd)
         return MT(f"List[{a.py}]", f"TList ({a.coq})", None, False, a.classes)
     if k == "Set":
         a = m_scalar(r)
@@ -176,22 +205,22 @@ def m_type(r, depth, avail, allow_any=True) -> MT:
             a = m_scalar(r)
         return MT(f"Set[{a.py}]", f"TSet ({a.coq})")
     if k == "Dict":
-        a = m_type(r, depth - 1, avail)
+        a = m_type(r, depth - 1, avail, asd=asd)
         return MT(f"Dict[str, {a.py}]", f"TDict ({a.coq})", None, False, a.classes)
     if k == "Tuple":
-        parts = [m_type(r, depth - 1, avail) for _ in range(r.randrange(1, 4))]
+        parts = [m_type(r, depth - 1, avail, asd=asd) for _ in range(r.randrange(1, 4))]
         return MT("Tuple[" + ", ".join(p.py for p in parts) + "]", "TTuple [" + "; ".join(p.coq for p in parts) + "]", None, False,
                   sum((p.classes for p in parts), ()))
     if k == "Tuple0":
         return MT("Tuple[()]", "TTuple []")
     if k == "Optional":
-        a = m_type(r, depth - 1, avail, allow_any=False)
+        a = m_type(r, depth - 1, avail, allow_any=False, asd=asd)
         if a.py.startswith(("Optional", "Union")):
             return a
         return MT(f"Optional[{a.py}]", f"TUnion [{a.coq}; TNone]", [("None", "JNull")], False, a.classes)
     parts, seen = [], set()
     for _ in range(r.randrange(2, 4)):
-        a = m_type(r, depth - 1, avail, allow_any=False)
+        a = m_type(r, depth - 1, avail, allow_any=False, asd=asd)
         if a.py in seen or a.py.startswith(("Optional", "Union")):
             continue
         seen.add(a.py)
@@ -210,7 +239,7 @@ def m_family(r):
     names = [f"M{i}" for i in range(n)]
     cyclic = r.random() < 0.12
     lines = ["from dataclasses import dataclass, field", "from typing import *", "from mashumaro import field_options",
-             "from mashumaro.config import BaseConfig"]
+             "from mashumaro.config import BaseConfig"] + M_PRELUDE
     coq_classes = []
     refs = {}
     for i, nm in enumerate(names):
@@ -220,6 +249,7 @@ def m_family(r):
         seen_default = False
         refs[nm] = set()
         used_alias = set()
+        ntd = r.random() < 0.3       # Config.namedtuple_as_dict of the owner decides the form of every NamedTuple below it
         for j in range(nf):
             fname = r.choice(["a", "b", "x", "items", "type", "ref"]) + str(j)
             if cyclic and j == 0 and i == n - 1:
@@ -227,7 +257,7 @@ def m_family(r):
                 t = r.choice([MT(f'Optional["{target}"]', f'TUnion [TClass "{target}"; TNone]', [("None", "JNull")], False, (target,)),
                               MT(f'List["{target}"]', f'TList (TClass "{target}")', None, False, (target,))])
             else:
-                t = m_type(r, r.choice([0, 1, 1, 2]), avail)
+                t = m_type(r, r.choice([0, 1, 1, 2]), avail, asd=ntd)
             refs[nm].update(t.classes)
             alias = None
             if r.random() < 0.25:
@@ -266,6 +296,8 @@ def m_family(r):
             cflds.append(f"mkfld {coq_str(key)} ({t.coq}) {'false' if has_default else 'true'} "
                          + (f"(Some ({jd}))" if jd is not None else "None"))
         cfg = [f"        {o} = True" for o in ("omit_none", "omit_default", "serialize_by_alias") if r.random() < 0.3]
+        if ntd:
+            cfg.append("        namedtuple_as_dict = True")
         if cfg:
             body.append("    class Config(BaseConfig):")
             body.extend(cfg)
@@ -313,6 +345,10 @@ def m_cases(ctx: vlib.Ctx, n: int):
         p = r.choice(PREFIXES)
         wd = False if builder else r.choice([True, False])
         wu = False if builder else r.choice([False, True])
+        pctx = None
+        if not builder and r.random() < 0.4:
+            pctx = (r.choice(["DRAFT_2020_12", "OPEN_API_3_1"]), r.choice([None, True, False, True]),
+                    r.choice([None, "#/q", "#/q/", "#/components/responses", "x"]))
         roots = []
         for _ in range(r.randrange(2, 5) if builder else 1):
             t = m_type(r, r.choice([0, 0, 1, 2]), names) if r.random() < 0.35 else None
@@ -342,7 +378,7 @@ def m_cases(ctx: vlib.Ctx, n: int):
                         exp_docs.append(canon(b.build(pt).to_dict()))
                     exp_defs = [(k, canon(v.to_dict())) for k, v in b.context.definitions.items()]
                 else:
-                    c = Context()
+                    c = Context() if pctx is None else Context(dialect=getattr(jd, pctx[0]), all_refs=pctx[1], ref_prefix=pctx[2])
                     doc = build_json_schema(pytypes[0], context=c, with_definitions=wd, with_dialect_uri=wu, **kw).to_dict()
                     exp_docs = [canon(doc)]
                     exp_defs = [(k, canon(v.to_dict())) for k, v in c.definitions.items()]
@@ -356,13 +392,14 @@ def m_cases(ctx: vlib.Ctx, n: int):
             continue
         sys.modules.pop(mod.__name__, None)
         ctx.hist("corr_shape", ("builder" if builder else "single") + ("/rec" if exp_rec else "") + (f"/all_refs={ar}"))
-        case = (f"({coqE}, ({kv_opt_bool(ar)}, {kv_dialect(D)}, {kv_opt_str(p)}), ({'true' if wd else 'false'}, {'true' if wu else 'false'}), "
+        pctx_term = "KNone" if pctx is None else f"(mk_ctx {pctx[0]} {kv_opt_bool(pctx[1])} {kv_opt_str(pctx[2])})"
+        case = (f"({coqE}, {pctx_term}, ({kv_opt_bool(ar)}, {kv_dialect(D)}, {kv_opt_str(p)}), ({'true' if wd else 'false'}, {'true' if wu else 'false'}), "
                 f"{'true' if builder else 'false'}, [" + "; ".join(t.coq for t in roots) + "], "
                 "[" + "; ".join(coq_str(d) for d in exp_docs) + "], "
                 "[" + "; ".join(f"({coq_str(k)}, {coq_str(v)})" for k, v in exp_defs) + "], "
                 f"{'true' if exp_rec else 'false'})")
         cases.append(case)
-        descr.append({"source": src, "roots": [t.py for t in roots], "builder": builder, "dialect": D, "all_refs": ar, "ref_prefix": p,
+        descr.append({"source": src, "roots": [t.py for t in roots], "builder": builder, "dialect": D, "all_refs": ar, "ref_prefix": p, "passed_context": pctx,
                       "with_definitions": wd, "with_dialect_uri": wu, "expected_recursion": exp_rec,
                       "expected_docs": [d.decode("utf-8", "replace") for d in exp_docs]})
     return cases, descr
@@ -382,7 +419,7 @@ def coq_part(ctx: vlib.Ctx):
         ctx.not_shown("translation K9", str(ctx.kernel_report.get("K9", {}).get("error")))
         return
     # (T) validation
-    cases, descr = k9_cases(ctx, ctx.budget(150, 600))
+    cases, descr = k9_cases(ctx, ctx.budget(700, 1500))
     bad, log = vlib.coq_bad_idx(f"c20_k9_{ctx.seed}_{os.getpid()}", "PyK_schema SchemaGen K9Proofs SchemaCorr", "From VerifGen Require Import K9.", "", cases,
                                 "k9_ok", "k9case", shard=300, needs=["theories/SchemaCorr.vo"])
     if bad is None:
